@@ -125,17 +125,17 @@ def compare_path(real, ref, M, tol=1e-6):
             return 'expected arcs only, got %s' % [type(s).__name__ for s in real]
         size = abs(app(M, c)) + abs(r) * (abs(M[0]) + abs(M[1]) + abs(M[2]) + abs(M[3])) + 1
         Minv = np.linalg.inv(mat(M))
-        if abs(real[0].start - real[-1].end) > tol * size or any(abs(a.end - b.start) > tol * size for a, b in zip(real, real[1:])):
+        if not (abs(real[0].start - real[-1].end) <= tol * size) or any(not (abs(a.end - b.start) <= tol * size) for a, b in zip(real, real[1:])):
             return 'ellipse outline not closed / not continuous'
         pts = [s.point(t) for s in real for t in (0.0, 0.125, 0.25, 0.375, 0.5, 0.625, 0.75, 0.875, 1.0)]
         for p in pts:
             v = Minv.dot(np.array([p.real, p.imag, 1.0]))
             w = complex((v[0] - c.real) / r.real, (v[1] - c.imag) / r.imag)
-            if abs(abs(w) - 1) > 1e-5:
+            if not (abs(abs(w) - 1) <= 1e-5):
                 return 'point %r is not on the mapped ellipse (residual %g)' % (p, abs(w) - 1)
         for q in (c + r.real, c - r.real, c + 1j * r.imag, c - 1j * r.imag):
             qm = app(M, q)
-            if min(abs(p - qm) for p in pts) > tol * size * 10:
+            if not (min(abs(p - qm) for p in pts) <= tol * size * 10):
                 return 'quadrant point %r of the ellipse is not on the path' % qm
         return None
     if len(real) != len(ref):
@@ -146,6 +146,6 @@ def compare_path(real, ref, M, tol=1e-6):
         if not same_type:
             return 'segment kind %s, expected %s' % (type(a).__name__, type(b).__name__)
         for t in TS:
-            if abs(a.point(t) - app(M, b.point(t))) > tol * size:
+            if not (abs(a.point(t) - app(M, b.point(t))) <= tol * size):
                 return '%s.point(%r) = %r, expected %r' % (type(a).__name__, t, a.point(t), app(M, b.point(t)))
     return None
